@@ -10,6 +10,7 @@ struct Args {
     seed: u64,
     threads: usize,
     replay: Option<(String, u64)>, // engine, scenario seed
+    only_engine: Option<String>,
 }
 
 fn parse() -> Args {
@@ -25,6 +26,7 @@ fn parse() -> Args {
     let mut seed: u64 = std::env::var("VERIF_SEED").ok().and_then(|s| s.parse().ok()).unwrap_or(1);
     let mut threads = std::thread::available_parallelism().map(|n| n.get()).unwrap_or(8).min(16);
     let mut replay = None;
+    let mut only_engine = std::env::var("TRV_ENGINE").ok();
     let mut i = 2;
     while i < a.len() {
         match a[i].as_str() {
@@ -37,6 +39,10 @@ fn parse() -> Args {
             "--seed" => {
                 i += 1;
                 seed = a[i].parse().expect("seed");
+            }
+            "--engine" => {
+                i += 1;
+                only_engine = Some(a[i].clone());
             }
             "--threads" => {
                 i += 1;
@@ -57,7 +63,7 @@ fn parse() -> Args {
         }
         i += 1;
     }
-    Args { id: a[1].clone(), tier, seed, threads, replay }
+    Args { id: a[1].clone(), tier, seed, threads, replay, only_engine }
 }
 
 fn main() {
@@ -110,7 +116,7 @@ fn main() {
             break;
         }
         let n = args.tier.pick(e.quick, e.thorough);
-        if n == 0 {
+        if n == 0 || args.only_engine.as_deref().map(|o| o != e.name).unwrap_or(false) {
             continue;
         }
         let threads = if e.serial { 1 } else { args.threads };
